@@ -37,6 +37,8 @@ type c15ovRoute struct {
 	partSent chan struct{}
 	gate     chan struct{}
 	once     sync.Once
+	// status != 0: answer with this status and no list.
+	status int
 }
 
 type c15ovServer struct {
@@ -69,6 +71,11 @@ func (s *c15ovServer) serve(w http.ResponseWriter, req *http.Request) {
 	s.mu.Unlock()
 	if r == nil {
 		http.Error(w, "no such list", http.StatusNotFound)
+
+		return
+	}
+	if r.status != 0 {
+		http.Error(w, "list server error", r.status)
 
 		return
 	}
@@ -159,6 +166,13 @@ type c15ovRound struct {
 	dataDir  string
 	log      []string
 	logMu    sync.Mutex
+	// prefix starts the violation keys ("overlap" or "crash").
+	prefix string
+	// gone are URLs of lists that were removed and must not be configured.
+	gone []string
+	// aborted, if not empty, occurs in every line of a download that was
+	// aborted by the death of the process.
+	aborted string
 }
 
 func (o *c15ovRound) logf(format string, a ...any) {
@@ -170,7 +184,7 @@ func (o *c15ovRound) logf(format string, a ...any) {
 func (o *c15ovRound) post(path, body string) (code int, resp string) {
 	c, b, pn := c15Call(o.handlers["POST "+path], http.MethodPost, path, body)
 	if pn != nil {
-		o.rep.Violate("overlap:handler-panicked:"+path, fmt.Sprintf("POST %s panicked: %v", path, pn), map[string]any{"round": o.n, "events": o.log})
+		o.rep.Violate(o.prefix+":handler-panicked:"+path, fmt.Sprintf("POST %s panicked: %v", path, pn), map[string]any{"round": o.n, "events": o.log})
 	}
 	o.logf("POST %s %s -> %d %s", path, body, c, strings.TrimSpace(string(b)))
 
@@ -186,8 +200,13 @@ func (o *c15ovRound) waitPending(want string) bool {
 	dirs := []string{filepath.Join(o.dataDir, filterDir), os.TempDir()}
 	deadline := time.Now().Add(5 * time.Second)
 	for time.Now().Before(deadline) {
-		for _, dir := range dirs {
-			names, _ := filepath.Glob(filepath.Join(dir, ".*.txt*"))
+		for di, dir := range dirs {
+			pat := ".*.txt*"
+			if di == 0 {
+				// Whatever the pending file is called.
+				pat = "*"
+			}
+			names, _ := filepath.Glob(filepath.Join(dir, pat))
 			for _, name := range names {
 				if data, err := os.ReadFile(name); err == nil && bytes.Contains(data, []byte(want)) {
 					return true
@@ -208,6 +227,8 @@ type c15ovWant struct {
 	Role string
 	// OldProbe must not be in force any more.
 	OldProbe string
+	// Name, if not empty, is the configured name.
+	Name string
 }
 
 func (o *c15ovRound) run(rng *rand.Rand) {
@@ -495,7 +516,7 @@ func (o *c15ovRound) judge(scenario string, want map[string]*c15ovWant) {
 			return m
 		}
 		if !ok || isAllow[w.URL] != w.Allow {
-			rep.Violate(fmt.Sprintf("overlap:%s:%s:list-missing-from-configuration", scenario, w.Role),
+			rep.Violate(fmt.Sprintf("%s:%s:%s:list-missing-from-configuration", o.prefix, scenario, w.Role),
 				"a list whose add_url / set_url returned 200 is not in the configuration", wit(nil))
 
 			continue
@@ -508,6 +529,11 @@ func (o *c15ovRound) judge(scenario string, want map[string]*c15ovWant) {
 			diffs = append(diffs, "file-missing")
 		case !bytes.Equal(stored, w.Text.NF):
 			d := "stored-file-not-normal-form"
+			if o.aborted != "" && bytes.Contains(stored, []byte(o.aborted)) {
+				diffs = append(diffs, "stored-file-contains-remains-of-aborted-download")
+
+				break
+			}
 			own := map[string]bool{}
 			for _, l := range strings.Split(string(w.Text.NF), "\n") {
 				own[l] = true
@@ -544,10 +570,34 @@ func (o *c15ovRound) judge(scenario string, want map[string]*c15ovWant) {
 				diffs = append(diffs, "reparse-checksum-differs")
 			}
 		}
+		if w.Name != "" && fj.Name != w.Name {
+			diffs = append(diffs, "name-not-as-configured")
+		}
+		if fj.URL != w.URL || !fj.Enabled {
+			diffs = append(diffs, "url-or-enabled-not-as-configured")
+		}
+		if len(diffs) > 0 && rerr == nil && bytes.Equal(stored, w.Text.NF) {
+			// The file is the list's own; is the metadata another list's?
+			for _, k2 := range keys {
+				m := want[k2]
+				if k2 == k {
+					continue
+				}
+				msum, _ := c15ProductSum(m.Text.NF)
+				if (int(fj.RulesCount) == bytes.Count(m.Text.NF, []byte("\n")) && sums[w.URL] == msum) ||
+					(m.Name != "" && w.Name != "" && m.Name != w.Name && fj.Name == m.Name) {
+					diffs = append([]string{"list-has-other-lists-metadata"}, diffs...)
+
+					break
+				}
+			}
+		}
 		if len(diffs) > 0 {
-			rep.Violate(fmt.Sprintf("overlap:%s:%s:%s", scenario, w.Role, diffs[0]),
-				fmt.Sprintf("after overlapping downloads the list (%s) is not what its own server sent: %s", w.Role, strings.Join(diffs, ", ")),
-				wit(map[string]any{"differences": diffs, "stored_file": c15Show(stored), "rules_count": fj.RulesCount, "checksum": sums[w.URL]}))
+			rep.Violate(fmt.Sprintf("%s:%s:%s:%s", o.prefix, scenario, w.Role, diffs[0]),
+				fmt.Sprintf("the list (%s) is not what its own server sent: %s", w.Role, strings.Join(diffs, ", ")),
+				wit(map[string]any{"differences": diffs, "stored_file": c15Show(stored), "rules_count": fj.RulesCount,
+					"checksum": sums[w.URL], "name": fj.Name, "expected_name": w.Name,
+					"expected_rules_count": bytes.Count(w.Text.NF, []byte("\n"))}))
 
 			continue
 		}
@@ -555,6 +605,12 @@ func (o *c15ovRound) judge(scenario string, want map[string]*c15ovWant) {
 		settles = append(settles, settle{w.Text.Probe, c15InForce(int(fj.ID), w.Allow), w.Role})
 		if w.OldProbe != "" {
 			settles = append(settles, settle{w.OldProbe, c15NotListed, w.Role})
+		}
+	}
+	for _, u := range o.gone {
+		if _, still := byURL[u]; still {
+			rep.Violate(fmt.Sprintf("%s:%s:removed-list-still-configured", o.prefix, scenario),
+				"a list whose remove_url returned 200 is still in the configuration", map[string]any{"round": o.n, "url": u, "events": o.log})
 		}
 	}
 	// Rules in force.  add_url and set_url rebuild the engines asynchronously,
@@ -594,7 +650,7 @@ func (o *c15ovRound) judge(scenario string, want map[string]*c15ovWant) {
 
 				return
 			}
-			rep.Violate("overlap:stored-but-not-in-force",
+			rep.Violate(o.prefix+":stored-but-not-in-force",
 				"every list is stored and reported correctly, but 20 s after the last handler returned the rules in force still are not the stored ones: "+bad,
 				map[string]any{"round": o.n, "scenario": scenario, "role_of_the_list": badRole, "events": o.log, "disagreement": bad})
 
@@ -625,14 +681,18 @@ func TestVerifC15Overlap(t *testing.T) {
 
 	nRounds := verifkit.Pick(80, 800)
 	for n := 0; n < nRounds; n++ {
-		o := &c15ovRound{rep: rep, srv: srv, n: n, handlers: map[string]http.HandlerFunc{},
+		o := &c15ovRound{rep: rep, srv: srv, n: n, handlers: map[string]http.HandlerFunc{}, prefix: "overlap",
 			dataDir: filepath.Join(root, fmt.Sprintf("r%d", n))}
 		if err = os.MkdirAll(o.dataDir, 0o755); err != nil {
 			rep.Inconcl(err.Error())
 
 			return
 		}
-		o.run(rep.Rand(fmt.Sprintf("round-%d", n)))
+		if n%3 == 2 {
+			o.runScheduled(rep.Rand(fmt.Sprintf("round-%d", n)))
+		} else {
+			o.run(rep.Rand(fmt.Sprintf("round-%d", n)))
+		}
 		if n < 2 {
 			rep.Sample(map[string]any{"round": n, "events": o.log})
 		}
